@@ -74,7 +74,7 @@ def _iter_chunked(read, buff_size):
                 raise parsing_err
             yield part
             rest_len -= len(part)
-        if read(2) != rn:
+        if read(1) + read(1) != rn:
             raise parsing_err
 
 
